@@ -841,6 +841,9 @@ func (t *tr) call(c *ast.CallExpr, stmt bool) ([]string, []T) {
 			}
 			return []string{"(" + a + " ++ [" + b + "])"}, []T{at}
 		case "new":
+			if ext := t.findExt("new(" + t.p.text(c.Args[0]) + ")"); ext != nil && ext.Value != "" {
+				return []string{ext.Value}, []T{ext.T}
+			}
 			ty := t.g.goT(t.typeOf(c))
 			if ty.Kind != "struct" {
 				t.fail(c, "new of %s", ty.Lean)
@@ -1352,6 +1355,10 @@ func (t *tr) expr(e ast.Expr) (string, T) {
 					}
 					f := t.g.field(st.Lean, fid.Name)
 					if f == nil {
+						// a field the configuration declares irrelevant in literals (`lit.<field>`, e.g. a mutex)
+						if ext := t.findExt("lit." + fid.Name); ext != nil && ext.Ignore {
+							continue
+						}
 						t.fail(x, "field %s of %s is not modelled", fid.Name, st.Lean)
 					}
 					v, _ := t.expr(kv.Value)
